@@ -1,6 +1,6 @@
 (* Extraction of the executable model and specification for the
    correspondence check. ExtrOcamlBasic only: Z stays Coq's binary Z. *)
-From CB Require Import Spec.
+From CB Require Import Spec Unstable.
 Require Import ExtrOcamlBasic.
 Extraction Language OCaml.
-Extraction "model.ml" exec spec_step abs new_buf junk0 mkW mkB mkE WF W usize_max Z.add Z.sub Z.mul Z.div_eucl Z.compare Z.of_nat Z.to_nat.
+Extraction "model.ml" exec exec_unstable spec_step abs new_buf junk0 mkW mkB mkE WF W usize_max Z.add Z.sub Z.mul Z.div_eucl Z.compare Z.of_nat Z.to_nat.
